@@ -14,8 +14,8 @@ import (
 func init() {
 	register(&Prop{
 		ID: "C04", Level: "fault_enumeration",
-		Rule: "two scenario families, chosen per run. (a) enumerated endings: a generated transaction program of 1-6 operations (Handle/Update/Delete/Truncate, reads, Snapshot, Iter) is executed once for every ending in {commit, explicit abort, error returned from Updates, panic inside Updates} placed after every prefix of its operations (all positions enumerated for each program); after each operation the transaction's own view is compared with the private model and a second task sweeps the router (must show the committed state only); after the ending the router must show all or none of the writes, the settled transaction must refuse every method, a read-only transaction must refuse writes without effect, and a write issued by the second task must complete (writer lock released, else the scheduler reports a deadlock). (b) concurrent readers: multi-route transactions next to readers that observe several keys from one snapshot (Iter.All, View, Allow header), history checked with porcupine. Non-trivial: the transaction made at least 2 effective writes and was observed from outside at least once while open; distinct = hash of (program, ending, position) or (programs, schedule).",
-		Run:  runC04, Quick: 32000, Thorough: 4800000,
+		Rule: "two scenario families, chosen per run. (a) enumerated endings: a generated transaction program of 1-6 operations (Handle/Update/Delete/Truncate, reads, Snapshot, Iter) is executed once for every ending in {commit, explicit abort, error returned from Updates, panic inside Updates, runtime.Goexit of the calling goroutine inside the transaction} placed after every prefix of its operations (all positions enumerated for each program); after each operation the transaction's own view is compared with the private model and a second task sweeps the router (must show the committed state only); after the ending the router must show all or none of the writes, the settled transaction must refuse every method, a read-only transaction must refuse writes without effect, and a write issued by the second task must complete (writer lock released, else the scheduler reports a deadlock). (b) concurrent readers: multi-route transactions next to readers that observe several keys from one snapshot (Iter.All, View, Allow header), history checked with porcupine; the same family also runs under the race detector (HB mode). Non-trivial: the transaction made at least 2 effective writes and was observed from outside at least once while open; distinct = hash of (program, ending, position) or (programs, schedule).",
+		Run:  runC04, HBRun: runC04HB, Quick: 32000, Thorough: 4800000, QuickHB: 4000, ThoroughHB: 400000,
 		Real: commonReal, Stub: commonStub,
 		Domain: []string{"transaction programs of <= 6 operations; pools as in C02", "concurrent family: as C05 with 80% of writer operations being transactions"},
 	})
@@ -31,6 +31,16 @@ func runC04(src sim.Source, o Opts) *Result {
 		runConc(src, o, res, concPlan{writersMin: 1, writersMax: 2, readersMin: 1, readersMax: 3, opsMin: 1, opsMax: 5, txnRate: 8})
 		res.inc("family_concurrent_readers")
 	}
+	return res
+}
+
+// runC04HB: the concurrent family under the race detector (a reader that observes memory a transaction is still writing
+// shows up as a data race even when the values happen to agree).
+func runC04HB(src sim.Source, o Opts) *Result {
+	res := newResult()
+	res.Case["prop"] = "C04"
+	runConc(src, o, res, concPlan{writersMin: 1, writersMax: 2, readersMin: 1, readersMax: 3, opsMin: 1, opsMax: 5, txnRate: 8})
+	res.inc("family_concurrent_readers")
 	return res
 }
 
@@ -72,7 +82,7 @@ func runC04Enum(src sim.Source, o Opts, res *Result) {
 	// enumerate every ending at every position; commit last (it changes the committed state)
 	var variants []txnVariant
 	n := len(prog.Ops)
-	for _, end := range []string{"abort", "error", "panic"} {
+	for _, end := range []string{"abort", "error", "panic", "goexit"} {
 		if end == "error" && !managed {
 			continue
 		}
@@ -128,6 +138,7 @@ func runC04Enum(src sim.Source, o Opts, res *Result) {
 			return d
 		}
 		s.Go("txn", func(*sim.Task) {
+			defer phase.Set(2) // also when the task leaves through runtime.Goexit inside the transaction
 			committedOK := runTxn(w, pool, &t, func(i int, txn *fox.Txn, op *WOp, out WOut) {
 				if t0fail != "" {
 					return
